@@ -223,14 +223,7 @@ def cfgOfJ (j : Json) : EN.Cfg :=
     attrPrefix := (str? c "attrPrefix").getD d.attrPrefix }
 
 def loadFiles (cfg : EN.Cfg) (fns : List (String × EV.FnSpec)) (files : List (Array String)) : EN.LoadRes EN.Mgr :=
-  let rec go (i : Nat) (fs : List (Array String)) (m : EN.Mgr) : EN.LoadRes EN.Mgr :=
-    match fs with
-    | [] => .ok m
-    | f :: rest =>
-      match EN.addFile cfg fns (i + 1) (f[0]!) (f[1]!) m with
-      | .ok m' => go (i + 1) rest m'
-      | r => r
-  go 0 files { cfg := cfg, templates := [], files := [], cx := { exprs := #[], fns := fns } }
+  EN.loadFiles cfg fns (files.map fun f => (f[0]!, f[1]!))
 
 /-- Bool mirror of `RN.Sorted` (the hypothesis of `RN.exec_refines_ref`), evaluated on every loaded template -/
 partial def sortedB (cfg : RN.Cfg) (n : RN.Node) : Bool :=
